@@ -6,7 +6,7 @@ package main
 func init() {
 	gens["C17"] = func(o *out) {
 		o.pins("internal/mod/modload", "tidy", "loader.tidyOnce", "loader.resolveDependencies",
-			"loader.resolveMissingImports", "loader.updateRoots", "loader.tidyRoots",
+			"loader.resolveMissingImports", "loader.updateRoots", "loader.tidyRoots", "keepImpliedDefaults",
 			"modfileFromRequirements", "equalRequirements", "mergeRequirements",
 			"loader.queryImport", "loader.queryLatestModules", "LatestVersion",
 			"loader.shouldIncludePkgFile", "withoutIgnoredFiles", "readPublishedModuleFile")
